@@ -58,6 +58,8 @@ type Program struct {
 	// Epilogue: emit query events, shut down before they expire, let them expire while
 	// stopped, serve again and run callbacks on the same groups.
 	Epilogue bool `json:"epilogue,omitempty"`
+	// StdLog: the service logs (with trace on) to a logger.StdLogger instead of the MemLogger.
+	StdLog bool `json:"stdLog,omitempty"`
 }
 
 func (p Program) String() string { b, _ := json.Marshal(p); return string(b) }
@@ -127,6 +129,8 @@ type world struct {
 	mst     *mockstore.Store
 	bst     *badgerstore.Store
 	ust     *badgerstore.Store // untyped store: no SetType, values are map[string]interface{}
+	cst     *badgerstore.Store // collections: values are []string
+	std     *logger.StdLogger  // writes to the null device
 	qs      *badgerstore.QueryStore
 	log     *logger.MemLogger
 	cbs     int64
@@ -144,8 +148,20 @@ func newWorld(p Program) (*world, error) {
 	}
 	w.cleanup = cleanup
 	w.log = logger.NewMemLogger().SetTrace(true)
+	// a StdLogger whose output goes to the null device (it captures os.Stderr when it is
+	// made; nothing else runs yet). The race detector writes its reports to fd 2 itself.
+	if null, err := os.OpenFile(os.DevNull, os.O_WRONLY, 0); err == nil {
+		old := os.Stderr
+		os.Stderr = null
+		w.std = logger.NewStdLogger().SetTrace(true)
+		os.Stderr = old
+	}
 	s := res.NewService("svc")
-	s.SetLogger(w.log)
+	if p.StdLog && w.std != nil {
+		s.SetLogger(w.std)
+	} else {
+		s.SetLogger(w.log)
+	}
 	s.SetWorkerCount(p.Workers)
 	s.SetQueryEventDuration(20 * time.Millisecond)
 	touch := func(r res.Resource) {
@@ -217,6 +233,8 @@ func newWorld(p Program) (*world, error) {
 	s.Handle("bs.$id", res.Model, store.Handler{Store: w.bst, Transformer: store.IDTransformer("id", nil)})
 	w.ust = badgerstore.NewStore(db).SetPrefix("u")
 	s.Handle("us.$id", res.Model, store.Handler{Store: w.ust, Transformer: store.IDTransformer("id", nil)})
+	w.cst = badgerstore.NewStore(db).SetType([]string{}).SetPrefix("c")
+	s.Handle("cs.$id", res.Collection, store.Handler{Store: w.cst, Transformer: store.IDTransformer("id", nil)})
 	s.Handle("bq", res.Collection, store.QueryHandler{QueryStore: w.qs,
 		QueryRequestHandler: func(rname string, pp map[string]string, q url.Values) (url.Values, string, error) {
 			return url.Values{"p": {q.Get("p")}}, "p=" + q.Get("p"), nil
@@ -375,6 +393,37 @@ func (w *world) exec(op Op, family map[string]bool, mu *sync.Mutex) {
 			_ = tx.Delete()
 		}
 		_ = tx.Close()
+	case "cstore":
+		// collections of one store.Handler changed from several goroutines at once
+		note("store")
+		id := strconv.Itoa(op.N % 4)
+		tx := w.cst.Write(id)
+		// (the collection is made sure to exist, then changed twice: two diffs per operation)
+		base := make([]string, 0, 48)
+		for i := 0; i < 40; i++ {
+			base = append(base, "e"+strconv.Itoa(i))
+		}
+		_ = tx.Create(base)
+		v1 := append(append([]string{"x" + strconv.Itoa(op.N)}, base[op.N%7:]...), "tail")
+		_ = tx.Update(v1)
+		v2 := append([]string{}, base[:20+op.N%15]...)
+		_ = tx.Update(append(v2, strconv.Itoa(op.N)))
+		if op.N%5 == 0 {
+			_ = tx.Delete()
+		}
+		_ = tx.Close()
+	case "stdlog":
+		note("logger")
+		if w.std != nil {
+			switch op.N % 3 {
+			case 0:
+				w.std.Infof("info %d from %s", op.N, op.RID)
+			case 1:
+				w.std.Errorf("error %d", op.N)
+			default:
+				w.std.Tracef("trace %s %d", op.RID, op.N)
+			}
+		}
 	case "uread":
 		note("store")
 		tx := w.ust.Read(strconv.Itoa(op.N % 4))
@@ -558,10 +607,11 @@ func genProgram() *rapid.Generator[Program] {
 	return rapid.Custom(func(t *rapid.T) Program {
 		p := Program{Workers: rapid.SampledFrom([]int{1, 2, 4, 8, 32}).Draw(t, "workers")}
 		p.Epilogue = rapid.IntRange(0, 3).Draw(t, "epilogue") == 0
+		p.StdLog = rapid.IntRange(0, 3).Draw(t, "stdlog") == 0
 		p.Yield = rapid.SampledFrom([]int{0, 50, 200, 500}).Draw(t, "yield")
 		p.Sleep = rapid.SampledFrom([]int{0, 10, 100}).Draw(t, "sleep")
 		nt := rapid.IntRange(2, 16).Draw(t, "threads")
-		kinds := []string{"get", "get", "call", "call", "access", "callquery", "qreq", "with", "with", "withgroup", "withres", "reset", "resetall", "token", "tokenreset", "mstore", "mstore", "bstore", "bstore", "bread", "ustore", "ustore", "uread", "bquery", "bflush", "logread", "sleep"}
+		kinds := []string{"get", "get", "call", "call", "access", "callquery", "qreq", "with", "with", "withgroup", "withres", "reset", "resetall", "token", "tokenreset", "mstore", "mstore", "bstore", "bstore", "bread", "ustore", "ustore", "uread", "bquery", "bflush", "logread", "sleep", "cstore", "cstore", "stdlog"}
 		restartThread := -1
 		if rapid.IntRange(0, 2).Draw(t, "withrestart") == 0 {
 			restartThread = rapid.IntRange(0, nt-1).Draw(t, "rthread")
